@@ -467,6 +467,11 @@ func runParent(id, tier string) int {
 					merged.Aborted = append(merged.Aborted, v)
 				}
 				st.restarts++
+				if p.FatalIsViolation && merged.ViolCount["fatal"] >= 40 {
+					// the verdict is settled (40 worker deaths are 40 violations): do not spend the rest of the budget on restarts
+					inconclusive = append(inconclusive, fmt.Sprintf("stopped restarting worker %d after 40 fatal cases in this run (the cases behind them were not run)", w))
+					break
+				}
 				if st.restarts > 200 || curIdx < 0 {
 					inconclusive = append(inconclusive, fmt.Sprintf("worker %d died repeatedly (exit %d): %s", w, code, tail(string(lg), 400)))
 					break
